@@ -16,6 +16,9 @@ from pandera.errors import BackendNotFoundError
 
 DtypeInputTypes = Union[str, type, DataType, Type]
 
+# distinguishes ``get_backend()`` from ``get_backend(None)``
+_NOT_PASSED: Any = object()
+
 
 class BaseSchema(ABC):
     """Core schema specification."""
@@ -101,15 +104,18 @@ class BaseSchema(ABC):
     @classmethod
     def get_backend(
         cls,
-        check_obj: Optional[Any] = None,
+        check_obj: Optional[Any] = _NOT_PASSED,
         check_type: Optional[Type] = None,
     ) -> BaseSchemaBackend:
         """Get the backend associated with the type of ``check_obj`` ."""
 
-        if check_obj is not None:
+        if check_obj is not None and check_obj is not _NOT_PASSED:
             check_obj_cls = type(check_obj)
         elif check_type is not None:
             check_obj_cls = check_type
+        elif check_obj is None:
+            # ``validate(None)``: report it like any other unsupported object
+            check_obj_cls = type(None)
         else:
             raise ValueError(
                 "Must pass in one of `check_obj` or `check_type`."
